@@ -52,6 +52,7 @@ def run(facts, report, config):
     eng.run_all(collect=False)
     run_zip(facts, report, config, eng)
     run_hash(facts, report, config, eng)
+    run_debug_width(facts, report, config, eng)
     for b in facts.fn_bodies():
         if b["kind"] == "Closure" or b.get("name") not in SELECT_NAMES:
             continue
@@ -432,3 +433,44 @@ def run_hash(facts, report, config, eng):
             report.add(Instance(key, "c06.hash", "ok",
                                 "auto: hand-written `==` depends on every field the derived Hash feeds%s" % (
                                     " and requires equal lengths" if dyn else ""), imp["span"], {"eq": eq["id"]}), config)
+
+
+# ---------------------------------------------------------------------------------------------
+# A predicate over two heap-allocated operands must not rely on a debug-only assertion about their lengths.
+
+def run_debug_width(facts, report, config, eng):
+    """`debug_assert_eq!(a.len(), b.len())` followed by a loop over one operand's length is a stated belief that is
+    checked in debug builds only: in the optimized build a longer second operand is silently truncated (and a
+    shorter one indexes out of bounds). Accepted: a release-mode guard relating both lengths, or none at all (then the
+    routine treats both lengths itself: zero-padding, max)."""
+    from .c11 import is_debug_assert
+    for b in facts.fn_bodies():
+        if b["kind"] == "Closure":
+            continue
+        view = eng.view(b["id"])
+        so = b.get("sig_out") or ""
+        dyn = [i for i in range(1, view.argc + 1) if _is_dyn(view.locals[i])]
+        if so not in PRED_RET or len(dyn) < 2:
+            continue
+        summ, evs = eng.analyze(b["id"], collect=True)
+        dbg, rel = [], []
+        for e in evs:
+            if e.kind != "branch" or e.via or not view.abort_guard(e.bb[0]):
+                continue
+            ps = {int(l[1:].split("#")[0].split(".")[0]) for l in e.labels if l.startswith("@")}
+            if len(ps & set(dyn)) < 2:
+                continue
+            (dbg if is_debug_assert(e.info) else rel).append(e.info.get("span"))
+        key = "c06.dbgwidth|%s" % norm_id(b["id"])
+        if dbg and not rel:
+            report.add(Instance(key, "c06.dbgwidth", "violation",
+                                "`%s` relates the sizes of its two operands only in a debug assertion: in the optimized build "
+                                "operands of different precision are compared limb by limb over one operand's length — the "
+                                "excess limbs of the other are ignored (or indexed out of bounds), so the answer disagrees with "
+                                "the padded comparisons (`ct_lt`, `Ord`) and with the mathematical order" % b.get("name"),
+                                b["span"], {"body": b["id"]}), config)
+        else:
+            report.add(Instance(key, "c06.dbgwidth", "ok",
+                                "auto: %s" % ("a release-mode guard relates the two lengths" if rel else
+                                              "no length assertion to rely on (both lengths are handled by the routine itself)"),
+                                b["span"], {"body": b["id"]}), config)
